@@ -42,28 +42,34 @@ func (c *Ctx) parseRouter(fd *ast.FuncDecl, recvStruct *types.Struct) (arms []ar
 		return
 	}
 	param := info.Defs[fd.Type.Params.List[0].Names[0]]
-	if len(fd.Body.List) != 2 {
-		bad("router body is not `x := msg.Interface(); switch tmp := x.(type) {...}` (%d statements)", len(fd.Body.List))
+	// two spellings: `x := msg.Interface(); switch tmp := x.(type) {...}` or `switch tmp := msg.Interface().(type) {...}`
+	isIfaceOfParam := func(e ast.Expr) bool {
+		call, ok := unparen(e).(*ast.CallExpr)
+		if !ok || len(call.Args) != 0 || !isMethod(callee(info, call), "reflect", "Value", "Interface") {
+			return false
+		}
+		sel, ok := call.Fun.(*ast.SelectorExpr)
+		return ok && info.Uses[identOf(sel.X)] == param
+	}
+	var xobj types.Object
+	var ts *ast.TypeSwitchStmt
+	switch len(fd.Body.List) {
+	case 2:
+		as, ok := fd.Body.List[0].(*ast.AssignStmt)
+		if !ok || as.Tok != token.DEFINE || len(as.Lhs) != 1 || len(as.Rhs) != 1 || !isIfaceOfParam(as.Rhs[0]) {
+			bad("first statement is not x := msg.Interface() on the parameter")
+			return
+		}
+		xobj = info.Defs[as.Lhs[0].(*ast.Ident)]
+		ts, _ = fd.Body.List[1].(*ast.TypeSwitchStmt)
+	case 1:
+		ts, _ = fd.Body.List[0].(*ast.TypeSwitchStmt)
+	default:
+		bad("router body is not `[x := msg.Interface();] switch tmp := x.(type) {...}` (%d statements)", len(fd.Body.List))
 		return
 	}
-	as, ok := fd.Body.List[0].(*ast.AssignStmt)
-	if !ok || as.Tok != token.DEFINE || len(as.Lhs) != 1 || len(as.Rhs) != 1 {
-		bad("first statement is not x := msg.Interface()")
-		return
-	}
-	call, ok := as.Rhs[0].(*ast.CallExpr)
-	if !ok || len(call.Args) != 0 || !isMethod(callee(info, call), "reflect", "Value", "Interface") {
-		bad("first statement is not x := msg.Interface()")
-		return
-	}
-	if sel, ok := call.Fun.(*ast.SelectorExpr); !ok || info.Uses[identOf(sel.X)] != param {
-		bad("Interface() is not called on the parameter")
-		return
-	}
-	xobj := info.Defs[as.Lhs[0].(*ast.Ident)]
-	ts, ok := fd.Body.List[1].(*ast.TypeSwitchStmt)
-	if !ok || ts.Init != nil {
-		bad("second statement is not a type switch")
+	if ts == nil || ts.Init != nil {
+		bad("router body does not end in a type switch")
 		return
 	}
 	tas, ok := ts.Assign.(*ast.AssignStmt)
@@ -72,8 +78,17 @@ func (c *Ctx) parseRouter(fd *ast.FuncDecl, recvStruct *types.Struct) (arms []ar
 		return
 	}
 	ta, ok := tas.Rhs[0].(*ast.TypeAssertExpr)
-	if !ok || ta.Type != nil || info.Uses[identOf(ta.X)] != xobj {
-		bad("type switch is not on x")
+	if !ok || ta.Type != nil {
+		bad("type switch does not bind tmp := x.(type)")
+		return
+	}
+	if xobj != nil {
+		if info.Uses[identOf(ta.X)] != xobj {
+			bad("type switch is not on x")
+			return
+		}
+	} else if !isIfaceOfParam(ta.X) {
+		bad("type switch is not on msg.Interface() of the parameter")
 		return
 	}
 	for _, s := range ts.Body.List {
